@@ -52,4 +52,17 @@ def run(tier, seed):
 
 
 def replay(path):
+    import json
+    r = json.load(open(path))
+    ex = r.get("exec") or {}
+    if str(ex.get("x", "")).startswith("m") and ex.get("np", 1) > 1:      # multi-process wait section
+        bld = vlib.build("dbg")
+        res, acc, rej, _ = vlib.run_validate(bld, [ex], c05.MODULE, r.get("cfg", "cfg/Trace_MP.cfg"), np=ex["np"], shim=True, par=1,
+                                             header=lambda evs: {"np": ex["np"]}, to_events=vlib.flatn)
+        if rej:
+            print(rej[0][2][:800])
+            print("VIOLATION property=%s replay=%s" % (PID, path))
+            return 1
+        print("accepted")
+        return 0
     return datacheck.replay(PID, path, header=datagen.header_for(datagen.NB_VARS, datagen.NB_DIMS))
